@@ -12,7 +12,7 @@ Lines == JsonDeserialize(IOEnv.LINES)          \* sequence of [id, ins]
 VARIABLES lid, pres, line
 vars == <<lid, pres, line>>
 Ins == Lines[lid].ins
-Dims == {"syn","rc","kc","sp","nb","isg","dsg","ord","dout","pct","st0"}
+Dims == {"syn","rc","kc","sp","nb","isg","dsg","ord","dout","pct","st0","dsp"}
 \* number of presentation dimensions that differ from the canonical presentation ("%" belongs to AT&T)
 Changed(p) == Cardinality({d \in Dims : p[d] # Pres0[d] /\ ~(d = "pct" /\ p.syn = "att")})
 OpHasReg(o) == \/ o.k = "reg" \/ (o.k = "mem" /\ (o.seg # "" \/ \E j \in 1..Len(o.terms) : o.terms[j].t = "reg"))
@@ -32,10 +32,11 @@ NumBase   == \E v \in {"hexl", "hexu"} : Step("nb", v)
 ImmSign   == Step("isg", TRUE)                          \* -1 <-> 2^w - 1 at the width of the operation
 DispSign  == Step("dsg", TRUE)                          \* [eax-1] <-> [eax+4294967295]
 TermOrder == \E v \in {"ibd", "dbi", "bdi"} : Step("ord", v) /\ pres.syn = "intel"
-DispOut   == Step("dout", TRUE) /\ pres.syn = "intel"   \* [eax+4] <-> 4[eax]
+DispOut   == Step("dout", TRUE) /\ pres.syn = "intel" /\ pres.dsp = "one"   \* [eax+4] <-> 4[eax]
 Percent   == Step("pct", TRUE) /\ pres.syn = "intel"    \* eax <-> %eax
 StBare    == Step("st0", "bare")                        \* st(0) <-> st
-ToAtt     == /\ Changed(pres) < MaxActs /\ pres.syn = "intel" /\ AttOK(Ins)
+DispSplit == \E v \in {"pm", "mp"} : Step("dsp", v) /\ pres.syn = "intel" /\ ~pres.dout    \* [eax+4] <-> [eax+8-4] <-> [eax-4+8]
+ToAtt     == /\ Changed(pres) < MaxActs /\ pres.syn = "intel" /\ pres.dsp = "one" /\ AttOK(Ins)
              /\ pres' = [pres EXCEPT !.syn = "att", !.pct = TRUE, !.ord = "bid", !.dout = FALSE, !.kc = "upper"]
              /\ Changed(pres') <= MaxActs
              /\ line' = Layout(Ins, pres') /\ UNCHANGED lid
@@ -44,8 +45,8 @@ On(a) == a \in Acts
 Next == \/ (On("RegCase") /\ RegCase)     \/ (On("KwCase") /\ KwCase)     \/ (On("Spacing") /\ Spacing)
         \/ (On("NumBase") /\ NumBase)     \/ (On("ImmSign") /\ ImmSign)   \/ (On("DispSign") /\ DispSign)
         \/ (On("TermOrder") /\ TermOrder) \/ (On("DispOut") /\ DispOut)   \/ (On("Percent") /\ Percent)
-        \/ (On("StBare") /\ StBare)       \/ (On("ToAtt") /\ ToAtt)
-AllActs == {"RegCase","KwCase","Spacing","NumBase","ImmSign","DispSign","TermOrder","DispOut","Percent","StBare","ToAtt"}
+        \/ (On("StBare") /\ StBare)       \/ (On("ToAtt") /\ ToAtt)   \/ (On("DispSplit") /\ DispSplit)
+AllActs == {"RegCase","KwCase","Spacing","NumBase","ImmSign","DispSign","TermOrder","DispOut","Percent","StBare","ToAtt","DispSplit"}
 Spec == Init /\ [][Next]_vars
 \* every reachable spelling denotes the instruction of its canonical line
 DenoteOK == /\ line = Layout(Ins, pres)
